@@ -570,10 +570,11 @@ def tiny_fee_transfer(rng: random.Random, asset: str = "AAA") -> Dict[str, Any]:
     b = HB(asset=asset, exchanges=EXCHANGES[:2], holders=HOLDERS[:1])
     ho = HOLDERS[0]
     t = T(rng.randint(2016, 2021), rng.randint(1, 12), rng.randint(1, 28))
-    b.acquire(t, rng.choice((10, 1000, 250000)), rng.choice(("0.004", "0.0004", "0.00049")))
+    bought = rng.choice((10, 1000, 250000))
+    b.acquire(t, bought, rng.choice(("0.004", "0.0004", "0.00049")))
     t += timedelta(days=rng.randint(1, 60))
     fee = Q11 * rng.randint(1, 9)
-    sent = Decimal(rng.choice((1, 5, 100)))
+    sent = Decimal(rng.choice((1, 5, 100) if bought > 200 else (1, 5)))  # the account holds what it sends
     b.move(t, sent, sent - fee, rng.choice(("0.004", "0.0005", "0.00002")), (EXCHANGES[0], ho), (EXCHANGES[1], ho))
     if rng.random() < 0.6:
         b.move(t + timedelta(days=3), 1, Decimal(1) - Decimal("0.001"), "0.004", (EXCHANGES[0], ho), (EXCHANGES[1], ho))  # an ordinary fee next to it
